@@ -19,12 +19,14 @@ func init() {
 			"recordMiniblock the arguments of hasRecentlyInsertedMiniblockMetadata derive from all three, markMiniblockMetadataAsRecentlyInserted is called with the same arguments, and the key builder's result " +
 			"derives from every one of its parameters. The skip decision depends on the block hash, the miniblock hash and the epoch; the cache holds ONE entry per (epoch, miniblock) whose value is the block of the latest record (the block hash is the cached value, not part of the key), so a competing record replaces it and returning to an earlier block (B1, B2, B1) is recorded again. " +
 			"Also: a nil result is either a cache hit or follows a checked putMiniblockMetadata, and the entry is marked only after that write. " +
+			"The pending-notification maps are written with the overwriting Set only. " +
 			"Not decided (schedules/value-level): ordering of pending notarization notifications.",
 		Run: runC46,
 	})
 }
 
 func runC46(c *core.Ctx) {
+	c46LatestNotificationWins(c)
 	const pkg = "core/dblookupext"
 	rec := anchorM(c, pkg, "historyRepository", "recordMiniblock")
 	if rec == nil {
@@ -255,4 +257,57 @@ func paramDeps(v ssa.Value, depth int) map[*ssa.Parameter]bool {
 	}
 	walk(v)
 	return out
+}
+
+// c46LatestNotificationWins: a notarization notification for a miniblock that is not recorded yet
+// is parked until the record arrives; when a newer metablock notarizes the same miniblock the newer
+// notification replaces the parked one, so that the lookup reports the canonical (latest)
+// metablock whatever the arrival order. The pending maps are written with the overwriting Set, never
+// with the add-if-absent Insert - directly or through a helper they are handed to.
+func c46LatestNotificationWins(c *core.Ctx) {
+	const pkg = "core/dblookupext"
+	funcs := c.P.FuncsOfPkg(pkg)
+	isPending := func(v ssa.Value) bool {
+		_, f := core.FieldLoad(v)
+		return f != nil && strings.HasPrefix(f.Name(), "pendingNotarized")
+	}
+	// parameters that receive a pending map at some call site
+	pendingParam := map[*ssa.Parameter]bool{}
+	for _, fn := range funcs {
+		core.Instrs(fn, func(in ssa.Instruction) {
+			cc := core.CallOf(in)
+			if cc == nil || cc.StaticCallee() == nil {
+				return
+			}
+			g := cc.StaticCallee()
+			for i, a := range cc.Args {
+				if isPending(a) && i < len(g.Params) {
+					pendingParam[g.Params[i]] = true
+				}
+			}
+		})
+	}
+	sets, bad := 0, ""
+	for _, fn := range funcs {
+		core.Instrs(fn, func(in ssa.Instruction) {
+			cc := core.CallOf(in)
+			if cc == nil || cc.StaticCallee() == nil || len(cc.Args) == 0 {
+				return
+			}
+			recv := cc.Args[0]
+			p, isP := recv.(*ssa.Parameter)
+			if !isPending(recv) && !(isP && pendingParam[p]) {
+				return
+			}
+			switch cc.StaticCallee().Name() {
+			case "Set":
+				sets++
+			case "Insert":
+				bad = fname(fn) + " at " + c.P.Pos(in.Pos())
+			}
+		})
+	}
+	c.Check(sets >= 3 && bad == "", "C46/latest-notification-wins", "historyRepository/pending-maps", 0,
+		fmt.Sprintf("the pending maps are written with Set (%d sites)", sets),
+		"a pending-notifications map is written with the add-if-absent Insert ("+bad+"): while a notification for a not-yet-recorded miniblock is parked a newer one is dropped, and the lookup reports the first metablock seen instead of the latest - depending on arrival order")
 }
